@@ -425,6 +425,46 @@ func runC13(p *an.Prog, r *an.Run, tier string) {
 				bad = append(bad, "the step sets a version other than "+itoa(int(i+1)))
 			}
 		}
+		// writes/deletes keyed by iterator items: the loop must be confined to the Seek prefix
+		for _, fnx := range an.WithAnon(st) {
+			var seeks, valids []ssa.CallInstruction
+			for _, c := range an.Calls(fnx, false) {
+				f := an.CallObj(c)
+				if an.IsMethod(f, badgerLib, "Iterator", "Seek") {
+					seeks = append(seeks, c)
+				}
+				if an.IsMethod(f, badgerLib, "Iterator", "ValidForPrefix") {
+					valids = append(valids, c)
+				}
+			}
+			for _, c := range an.Calls(fnx, false) {
+				if !isBadgerTxnMethod(an.CallObj(c), "Delete", "Set", "SetEntry") {
+					continue
+				}
+				dk := p.Derives(0, c.Common().Args[1])
+				if dk.CallTo(func(f *types.Func) bool {
+					return an.IsMethod(f, badgerLib, "Item", "Key") || an.IsMethod(f, badgerLib, "Item", "KeyCopy")
+				}) == nil {
+					continue
+				}
+				confined := false
+				for _, ctl := range an.ControllingIfs(c.Block()) {
+					vc, ok := ctl.If.Cond.(*ssa.Call)
+					if !ok || ctl.Succ != 0 || !an.IsMethod(an.CallObj(vc), badgerLib, "Iterator", "ValidForPrefix") {
+						continue
+					}
+					for _, sk := range seeks {
+						if sk.Common().Args[1] == vc.Call.Args[1] || sameConstBytes(p, sk.Common().Args[1], vc.Call.Args[1]) {
+							confined = true
+						}
+					}
+				}
+				if !confined {
+					bad = append(bad, "the write/delete at "+p.Pos(c.Pos())+" acts on iterator items without the loop being confined by ValidForPrefix(<the Seek prefix>): it runs on past the prefix into other key spaces (peers, trial balances, ...)")
+				}
+			}
+			_ = valids
+		}
 		// key spaces
 		for _, o := range badgerOps(p, st) {
 			if o.Kind != opWrite && o.Kind != opDelete {
@@ -438,4 +478,9 @@ func runC13(p *an.Prog, r *an.Run, tier string) {
 		}
 		r.Check(len(bad) == 0, "migration", key, st.Pos(), "asserts version, touches only nonce/version keys, bumps the version on every success path", "%s", strings.Join(dedup(bad), "; "))
 	}
+}
+
+func sameConstBytes(p *an.Prog, a, b ssa.Value) bool {
+	sa, sb := p.Derives(0, a).ConstStrings(), p.Derives(0, b).ConstStrings()
+	return len(sa) == 1 && len(sb) == 1 && sa[0] == sb[0]
 }
